@@ -124,4 +124,10 @@ TEXT = {
   "note": "hypotheses: aligned tick, fee >= 1, tip not dated 0, the producer can replay its own block (no id clash of the fresh reward transaction); the property as stated is refuted in three known situations (findings); trusted: Coq kernel, extraction, harness, oracles",
   "technique": "Coq proof (simulation producer => verifier for confirmed-only blocks, reachable refutation witnesses) + differential correspondence on three real peers per produced block",
  },
+ "C14": {
+  "level": "Theorems over the model in which every Go panic site is a value (Err (EPanic site)): for EVERY JSON tree delivered to the transaction endpoint, for every list of JSON trees answered by neighbors to the two sync requests, and then for ANY sequence of further wire operations, ticks and registry refreshes, no intermediate result (admission, production outcome and drop log, every verify call, every commit-loop update, the read-only endpoints under sane settings) is EPanic, the invariant 'every stored transaction has an output' is preserved, and a refused message leaves the node unchanged; null requests, null list elements, null blocks and transactions without outputs are rejected at decoding; the pinned tree's panic is exhibited (an empty outputs list reaches Outputs()[0]).",
+  "ref": "DESIGN.md section 4, C14",
+  "note": "partial below the JSON tree: Go's lexer, golang-p2p framing and gin are exercised by the crash suite (every schema position x 14 fault kinds, ids recomputed), not modelled; access-node division by a zero validation interval is a settings matter; trusted: Coq kernel, extraction, harness",
+  "technique": "Coq proof (decoder image + invariant over arbitrary wire histories with panic sites as error values) + fault-matrix correspondence on the real handlers, sync round and access-node controllers",
+ },
 }
